@@ -15,6 +15,7 @@ Journal records (appended by the bodies and by the call / step sites inside them
     ("XH", hidx, excname, at_yield)         site: stepping handle hidx propagated an exception
     ("XC", hidx) / ("XD", hidx)             site: suspended handle closed / dropped (GeneratorExit at the yield)
     ("A", cid)                              right before an await suspension
+    ("MU", cid, obj, copy)                  right before the container obj (bound to a parameter) is mutated in place; copy = its state before
 """
 
 
